@@ -516,7 +516,7 @@ pub fn run(ctx: &Ctx, replay: Option<&Value>) -> i32 {
     }
     let code = ctx.finish(
         "model_checking",
-        "all client-visible shutdown histories: 6 session states (no debugger, attached idle, test launched but not started, running, paused, finished) x 11 orders of LSP shutdown/exit, DAP disconnect (plain and with `terminateDebuggee: false`), a debugger attaching late, closing stdin, closing the TCP connection x inter-message gap patterns, each run twice on the real `mos lsp` process (stdio + TCP); observed: exit status, exit within a 5 s horizon, debug port free afterwards, panics on stderr. A Promela model of the shutdown protocol is explored exhaustively with spin and every observed outcome must lie in the model's outcome set for that history",
+        "all client-visible shutdown histories: 7 session states (no debugger, attached idle, test launched but not started, the same with a `pause` already requested, running, paused, finished) x 11 orders of LSP shutdown/exit, DAP disconnect (plain and with `terminateDebuggee: false`), a debugger attaching late, closing stdin, closing the TCP connection x inter-message gap patterns, each run twice on the real `mos lsp` process (stdio + TCP); observed: exit status, exit within a 5 s horizon, debug port free afterwards, panics on stderr. A Promela model of the shutdown protocol is explored exhaustively with spin and every observed outcome must lie in the model's outcome set for that history",
         true,
         &[
             "timing is a finite menu of gaps (20 ms quick; 0/20/200 ms thorough); interleavings inside the real process are not controlled",
